@@ -39,9 +39,82 @@ def _written(ctx, f):
     if len(lits) != 1 or len(rets) != 1:
         raise AnalysisError(f"{f.qual}: does not return one dictionary display")
     top = lits[0]
-    # sub-dictionaries may be named intermediates (`properties = {...}`): expand() already inlined them
-    m = {k.value: v for k, v in zip(top.keys, top.values) if isinstance(k, ast.Constant)}
+    # sub-dictionaries may be named intermediates (`properties = {...}`): expand() already inlined them;
+    # intermediates filled key by key (`d = {}; d["pixel"] = ...`) are read as the display they end up as
+    from sa.astutil import dict_display
+
+    m = {}
+    for k, v in zip(top.keys, top.values):
+        if not isinstance(k, ast.Constant):
+            continue
+        if isinstance(v, ast.Name):
+            dd = dict_display(f, v.id)
+            if dd is not None:
+                v = dd
+        elif isinstance(v, ast.Dict) and not v.keys:
+            pass
+        m[k.value] = v
     return top, m
+
+
+def _forward_sinks(fd, nd) -> set:
+    """Containers of `detector` that receive a value derived from the read ``nd`` (forward taint over
+    the function's statements; a loop target is tainted inside its own loop only, so loop variables
+    re-used by a later loop do not merge the flows)."""
+    from sa.index import ancestors as _anc2
+
+    taint: list[tuple[str, ast.AST]] = []  # (name, scope node)
+
+    def tainted_in(e, where) -> bool:
+        if e is None:
+            return False
+        if e is nd or contains(e, nd):
+            return True
+        for x in ast.walk(e):
+            if isinstance(x, ast.Name) and isinstance(x.ctx, ast.Load):
+                for nm, sc in taint:
+                    if nm == x.id and (sc is fd.node or contains(sc, where)):
+                        return True
+        return False
+
+    def add(nm, sc) -> bool:
+        if (nm, sc) in [(a_, b_) for a_, b_ in taint]:
+            return False
+        taint.append((nm, sc))
+        return True
+
+    sinks: set = set()
+    changed = True
+    rounds = 0
+    while changed and rounds < 8:
+        changed = False
+        rounds += 1
+        for st in walk_ordered(fd.node):
+            if isinstance(st, (ast.For, ast.AsyncFor)) and tainted_in(st.iter, st):
+                for x in ast.walk(st.target):
+                    if isinstance(x, ast.Name):
+                        changed |= add(x.id, st)
+            elif isinstance(st, (ast.Assign, ast.AnnAssign, ast.AugAssign)) and getattr(st, "value", None) is not None and tainted_in(st.value, st):
+                for t in (st.targets if isinstance(st, ast.Assign) else [st.target]):
+                    d = dotted(t) or ""
+                    if d.startswith("detector."):
+                        sinks.add(d.split(".")[1].lstrip("_"))
+                        continue
+                    base = t
+                    while isinstance(base, (ast.Subscript, ast.Attribute, ast.Starred)):
+                        base = base.value
+                    for x in ([base] if isinstance(base, ast.Name) else [y for y in ast.walk(base) if isinstance(y, ast.Name)]):
+                        if x.id != "detector":
+                            changed |= add(x.id, fd.node)
+            elif isinstance(st, ast.Expr) and isinstance(st.value, ast.Call) and isinstance(st.value.func, ast.Attribute):
+                c = st.value
+                if any(tainted_in(a_, st) for a_ in list(c.args) + [k.value for k in c.keywords]):
+                    recv = dotted(c.func.value) or ""
+                    if recv.startswith("detector."):
+                        sinks.add(recv.split(".")[1].lstrip("_"))
+                    elif isinstance(c.func.value, ast.Name) and c.func.attr in ("append", "extend", "update", "add", "setdefault", "insert"):
+                        changed |= add(c.func.value.id, fd.node)
+    return sinks
 
 
 def r1_detector_key_parity(ctx):
@@ -149,6 +222,12 @@ def r1_detector_key_parity(ctx):
                             if val2 is not None and al in names_in(val2):
                                 got |= {(dotted(t) or "").split(".")[1].lstrip("_") for t in (st2.targets if isinstance(st2, ast.Assign) else [getattr(st2, "target", None)]) if t is not None and (dotted(t) or "").startswith("detector.")}
                             sinks |= got
+            if not sinks:
+                # several hops (entry -> loop over its items -> rebuilt mapping -> detector.<k>): every store into the
+                # detector whose value derives (backward data-flow closure) from an expression holding this read
+                for nd in nodes_:
+                    if not isinstance(nd, ast.Compare):
+                        sinks |= _forward_sinks(fd, nd)
             # conditions like `"k" in data` carry no sink by themselves
             sinks.discard("")
             oks = k in sinks and not (sinks - {k})
@@ -347,8 +426,20 @@ def r3_backend_parity(ctx):
     want = {"/geometry": "dct['properties']['geometry']", "/environment": "dct['properties']['environment']", "/characteristics": "dct['properties']['characteristics']", "/data": "dct['data']"}
     ok = stored == want
     ctx.check(ok, wh.qual, "stores geometry/environment/characteristics/data groups from the like-named entries" if ok else f"HDF5 groups written: {stored}", where=wh, node=wh.node)
-    txt = norm(rh.node)
-    ok = "for name in ('geometry', 'environment', 'characteristics'):" in txt and "properties[name] = _load(h5file, name=f'/{name}')" in txt and "data[name] = _load(h5file, name=f'/data/{name}')" in txt and "dct['properties'] = properties" in txt and "dct['data'] = data" in txt
+    from sa.astutil import accumulator_comp, dict_display
+
+    # what the reader hands out, read as the displays its dictionaries end up as (loops over the literal
+    # group names are unrolled by the canonical pass, accumulate-loops read as comprehensions)
+    top = dict_display(rh, "dct")
+    pd_ = dict_display(rh, "properties")
+    ok = top is not None and pd_ is not None
+    if ok:
+        tm = {k.value: v for k, v in zip(top.keys, top.values) if k is not None}
+        ok = dotted(tm.get("properties")) == "properties" and dotted(tm.get("data")) == "data"
+        pm = {k.value: norm(v) for k, v in zip(pd_.keys, pd_.values)}
+        ok = ok and pm == {g_: f"_load(h5file, name='/{g_}')" for g_ in ("geometry", "environment", "characteristics")}
+        dc = accumulator_comp(rh.node, "data")
+        ok = ok and isinstance(dc, ast.DictComp) and len(dc.generators) == 1 and not dc.generators[0].ifs and norm(dc.generators[0].iter) == "h5file['/data']" and norm(dc.key) == norm(dc.generators[0].target) and norm(dc.value) == f"_load(h5file, name=f'/data/{{{norm(dc.key)}}}')"
     ctx.check(ok, rh.qual, "loads the same groups under the same names" if ok else "HDF5 reader does not load the groups the writer stores", where=rh, node=rh.node)
 
 
